@@ -155,7 +155,8 @@ def check_plan(chk: Check, plan: dict, obs: dict, table: dict, per_eval: int = 1
     chk.evaluations += 1
     p = project_obs(obs, per_eval)
     k_spec = -(-plan.get("k", 0) // per_eval)
-    tkey = (k_spec, plan.get("kind", "exception"), plan["scheme"]["method"], bool(plan["verbose"]), bool(plan["raise"]),
+    spec_kind = "exception" if plan.get("kind") == "exception_swap" else plan.get("kind", "exception")    # the model swapping sys.stdout is not a spec-level kind: stdout must be restored all the same
+    tkey = (k_spec, spec_kind, plan["scheme"]["method"], bool(plan["verbose"]), bool(plan["raise"]),
             bool(plan.get("swap", False)), tuple(sorted(plan.get("invalid", []))))
     allowed = table.get(tkey)
     if plan.get("invalid"):
@@ -188,7 +189,7 @@ def check_plan(chk: Check, plan: dict, obs: dict, table: dict, per_eval: int = 1
                       f"an invalid scheme was evaluated before it was rejected: {json.dumps(plan)}", rep)
         good = False
     if obs["outcome"] == "result" and not plan.get("invalid"):
-        if not obs["success"] and plan.get("kind") == "exception" and not obs["params_evaluated_ok_in_scipy"]:
+        if not obs["success"] and plan.get("kind") in ("exception", "exception_swap") and not obs["params_evaluated_ok_in_scipy"]:
             chk.violation(f"optimize[fault kind=exception at={p[0]}]: result parameters were not evaluated without error",
                           f"Result(success=False).optimized_parameters is not a parameter set that was evaluated successfully: {json.dumps(plan)}", rep)
             good = False
@@ -211,6 +212,10 @@ def make_plans(tier: str, counts: dict, schemes: list[dict]):
                 for rais in (False, True):
                     for k in range(1, n + per + 1):
                         plans.append({"scheme": s, "k": k, "kind": kind, "verbose": verbose, "raise": rais})
+        # the failing evaluation itself replaces sys.stdout and raises while its stream is installed
+        for rais in (False, True):
+            for k in sorted({1, 2, max(2, n // 2), max(2, n - 3 * per)}):     # inside least_squares only: a stream the model installs outside optimize()'s own redirection is not optimize()'s to restore
+                plans.append({"scheme": s, "k": k, "kind": "exception_swap", "verbose": False, "raise": rais})
     return plans
 
 
@@ -328,7 +333,7 @@ def binding_selftest(chk: Check, traces: list[dict], npoints: int):
 # ---------------------------------------------------------------------------------------------- entry
 def schemes_for(tier: str):
     tol = 1e-3 if tier == "quick" else 1e-8
-    schemes = [{"method": m, "tol": tol} for m in METHODS]
+    schemes = [{"method": m, "tol": tol, "nonneg": True} for m in METHODS]     # k.2 is optimised as log(k.2)
     extra = []
     if tier == "thorough":
         extra = [{"method": "TrustRegionReflection", "tol": 1e-3, "residual": "non_negative_least_squares"},
